@@ -210,6 +210,7 @@ func configs() []*config {
 			// when it is handed out, counts as an executing worker of each,
 			// and its worker afterwards last served their common ancestor.
 			name: "c04-dedup", props: []string{"C04"},
+			inspect:     []string{"inspect"},
 			predeclared: onePQ(),
 			workers:     []workerDecl{w(1, "", "P1", 0), w(2, "", "P1", 0)},
 			execs: []execDecl{
@@ -278,6 +279,7 @@ func configs() []*config {
 			// synchronizing (queue removal and re-creation), start-up grace
 			// period of 2 ticks.
 			name: "c05-route", props: []string{"C05"},
+			inspect:     []string{"inspect"},
 			predeclared: []pqDecl{{prefix: "a", platform: "P1", sizeClasses: []uint32{0}}},
 			workers:     []workerDecl{w(1, "", "P1", 0), w(2, "a/b", "P1", 0), w(3, "a", "P2", 0)},
 			execs: []execDecl{
@@ -296,6 +298,10 @@ func configs() []*config {
 			// (the list of platform queues is kept contiguous by moving the
 			// last one into the freed slot; the trie must follow).
 			name: "c05-remove", props: []string{"C05"},
+			// Only ListPlatformQueues here (the one call that deals with the
+			// list of platform queues this scenario permutes); the other
+			// read-only calls are letters of c05-route/-sizeclass/-drain/-inspect.
+			inspect: []string{"i:pq"},
 			workers: []workerDecl{w(1, "", "P1", 0), w(2, "a", "P1", 0), w(3, "a/b", "P1", 0), w(4, "a", "P2", 0)},
 			execs: []execDecl{
 				{name: "x:a/b/P1", inst: "a/b", platform: "P1", corr: "I1", dur: 1},
@@ -309,6 +315,7 @@ func configs() []*config {
 			// disappears again, scripted selector picking index 0/1/2,
 			// failures retried on the largest class.
 			name: "c05-sizeclass", props: []string{"C05"}, fail: true,
+			inspect:     []string{"inspect"},
 			predeclared: []pqDecl{{prefix: "", platform: "P1", sizeClasses: []uint32{1, 4}}},
 			workers:     []workerDecl{w(1, "", "P1", 1), w(2, "", "P1", 2), w(3, "", "P1", 4)},
 			execs: []execDecl{
@@ -323,6 +330,7 @@ func configs() []*config {
 		{
 			// Drains and terminating workers.
 			name: "c05-drain", props: []string{"C05", "C04"},
+			inspect:     []string{"inspect"},
 			predeclared: onePQ(),
 			workers:     []workerDecl{w(1, "", "P1", 0), w(2, "", "P1", 0)},
 			execs: []execDecl{
@@ -337,9 +345,35 @@ func configs() []*config {
 			probes: []string{""},
 		},
 		{
+			// Read-only operator/inspection calls as letters of their own
+			// (one letter per BuildQueueState method, see inspect.go) between
+			// requests and worker calls, on platform queues registered OUT
+			// OF ListPlatformQueues' sort order: "b" before "a/b" before
+			// "a", and under "a" platform os=zzz before os=aaa. Sorted they
+			// are a/Pa, a/Pz, a/b/Pz, b/Pz: every position differs.
+			name: "c05-inspect", props: []string{"C05"},
+			inspect: inspectLetters,
+			predeclared: []pqDecl{
+				{prefix: "b", platform: "Pz", sizeClasses: []uint32{0}},
+				{prefix: "a/b", platform: "Pz", sizeClasses: []uint32{0}},
+				{prefix: "a", platform: "Pz", sizeClasses: []uint32{0}},
+				{prefix: "a", platform: "Pa", sizeClasses: []uint32{0}},
+			},
+			workers: []workerDecl{w(1, "b", "Pz", 0), w(2, "a", "Pa", 0), w(3, "a/b", "Pz", 0)},
+			execs: []execDecl{
+				{name: "x:b/Pz", inst: "b", platform: "Pz", corr: "I1", dur: 1},
+				{name: "x:a/b/c/Pz", inst: "a/b/c", platform: "Pz", corr: "I1", dur: 1},
+				{name: "x:a/Pa", inst: "a", platform: "Pa", corr: "I2", dur: 1},
+				{name: "x:a/c/Pz", inst: "a/c", platform: "Pz", corr: "I2", dur: 1},
+			},
+			depth: map[string]int{"quick": 4, "thorough": 6}, shards: 8,
+			probes: []string{"", "a", "a/b", "a/b/c", "a/c", "b", "b/a"}, plats: []string{"Pa", "Pz"},
+		},
+		{
 			// Listing order (ListInvocationChildren QUEUED / ListQueuedOperations)
 			// as a letter: the calls re-sort the heaps.
 			name: "c04-list", props: []string{"C04"}, mixedRouter: true, list: true,
+			inspect:     []string{"inspect"},
 			predeclared: onePQ(),
 			workers:     []workerDecl{w(1, "", "P1", 0)},
 			execs: []execDecl{
